@@ -53,7 +53,7 @@ def _ops(version: str):
         st.builds(lambda n, c: ["rx", f"{n};{c};0;0;3;relay\n"], node, child),
         st.sampled_from((["rx", "0;255;3;0;9;log\n"], ["rx", "0;255;3;0;2;2.2.0\n"], ["rx", "0;255;3;0;2;2.0.1\n"], ["rx", "junk\n"])),
     )
-    free = st.lists(st.one_of(send, send, send, send, wake, wake, other), min_size=8, max_size=30)
+    free = st.lists(gen.weighted((4, send), (2, wake), (1, other)), min_size=8, max_size=30)
 
     @st.composite
     def episodes(draw):
@@ -66,7 +66,7 @@ def _ops(version: str):
                     op = ["send", [target] + op[1][1:], op[2]]
                 ops.append(op)
                 if not draw(st.integers(0, 4)):
-                    ops.append(draw(st.one_of(other, wake)))
+                    ops.append(draw(gen.weighted((1, other), (1, wake))))
             wake_op = draw(wake)
             if draw(st.integers(0, 4)):
                 wake_op = ["rx", f"{target};" + wake_op[1].split(";", 1)[1]]
@@ -93,7 +93,7 @@ def _registry(draw) -> dict:
 def strategy(tier: str):
     versions = st.sampled_from(("2.0", "2.1", "2.2", "2.0", "2.1", "2.2", "2.2", "1.4", "1.5"))
     return versions.flatmap(
-        lambda v: st.fixed_dictionaries({"version": st.just(v), "registry": _registry(), "ops": _ops(v)})
+        lambda v: st.fixed_dictionaries({"version": st.just(v), "registry": _registry(), "ops": _ops(v), "listen_mode": st.sampled_from(("fresh", "persistent"))})
     )
 
 
